@@ -384,7 +384,7 @@ func c19Run(e *core.Env) {
 			cs := c19Case{Scenario: sc.Name, Picks: picks, Tier: e.Tier}
 			e.Violation(key+":"+scenarioClass(sc.Name), detail+"\nscenario: "+sc.Name+"\nargs: "+strings.Join(sc.Args, " ")+"\nschedule picks: "+fmt.Sprint(picks), cs, func() bool {
 				drv.Files(sc.Files)
-				o := drv.Run(core.NewReplayCtx(picks, false), sc.Args...)
+				o := drv.Run(core.NewReplayCtxNoMap(picks, false), sc.Args...)
 				k, _ := checkOutcome(sc, o, nil)
 				return k == key || (key == "C19:schedule-dependent-result" && k == "")
 			})
@@ -418,7 +418,7 @@ func c19Replay(e *core.Env, data json.RawMessage) (bool, string) {
 		drv.Files(sc.Files)
 		base := drv.Run(nil, sc.Args...)
 		drv.TraceOps = true
-		o := drv.Run(core.NewReplayCtx(cs.Picks, true), sc.Args...)
+		o := drv.Run(core.NewReplayCtxNoMap(cs.Picks, true), sc.Args...)
 		k, d := checkOutcome(sc, o, base)
 		return k != "", k + "\n" + d + "\noperation log:\n" + strings.Join(o.Trace, "\n")
 	}
